@@ -55,3 +55,145 @@ Definition verdict (c : Z * case) : list (Z * Z * Z * Z) :=
      match first_bad cp (length tr) tr with Some i => [(id, 2, i, 0)] | None => [(id, 2, 0, 0)] end).
 
 Definition run_cases (cs : list (Z * case)) : list (Z * Z * Z * Z) := flat_map verdict cs.
+
+(* ------------------------------------------------------------------ *)
+(* Free-running outcomes.  The harness also runs small groups of concurrent
+   calls on the real cache WITHOUT any scheduler control (real goroutines,
+   no yield hook) many times and records every distinct outcome: the return
+   value of each call and the state observed once all calls have returned
+   (a fixed tail of sequential observers: Len, Size, Range, RangeFILO,
+   RangeFIFO).  C16_linearizable says that every schedule of the atomic
+   blocks has the outcome of some sequential order of the calls, so an
+   observed outcome that NO sequential order produces is either a violation
+   by the real code or an execution that is not a schedule of the modelled
+   atomic blocks (a window the model does not have).  Both are reported.
+   Nothing undetermined is compared: only the calls' results and the final
+   state, against the set of ALL sequential orders; a Get inside the group
+   moves its entry to the front in the sequential run as well.
+
+   [nocb]: the cache was built without a delete callback, so the callback
+   lists of the observations are empty and the model's are erased before the
+   comparison. *)
+
+Definition strip (nocb : bool) (ob : obs) : obs :=
+  if nocb then
+    match ob with
+    | OPut e _ => OPut e [] | OErr _ => OErr [] | OVal v _ => OVal v [] | ODone _ => ODone []
+    | x => x
+    end
+  else ob.
+
+(* run calls (op, observed result) one after the other; None as soon as an
+   observation differs: on the reference LRU and on the model *)
+Fixpoint ref_seq_g (nocb : bool) (r : rstate) (l : list (op * obs)) : option rstate :=
+  match l with
+  | [] => Some r
+  | (o, ob) :: rest =>
+    let '(r1, rob) := ref_step r o in
+    if obs_match o ob (strip nocb rob) then ref_seq_g nocb r1 rest else None
+  end.
+Fixpoint mod_seq_g (nocb : bool) (c : cache) (l : list (op * obs)) : option cache :=
+  match l with
+  | [] => Some c
+  | (o, ob) :: rest =>
+    let '(c1, mob) := step c o in
+    if obs_match o ob (strip nocb mob) then mod_seq_g nocb c1 rest else None
+  end.
+
+(* some sequential order of [calls] explains their results and the tail *)
+Definition explained {S : Type} (chk : S -> list (op * obs) -> option S) (s : S)
+  (calls tl : list (op * obs)) : bool :=
+  existsb (fun order =>
+             match chk s order with
+             | Some s1 => match chk s1 tl with Some _ => true | None => false end
+             | None => false
+             end) (perms calls).
+
+(* capacity, nocb, sequential prefix with its observations, the concurrent
+   calls, the tail observers, the distinct outcomes (results of the calls in
+   call order, observations of the tail) *)
+Definition fcase := (Z * bool * list (op * obs) * list op * list op * list (list obs * list obs))%type.
+
+Definition outcome_wf (ops tl : list op) (oc : list obs * list obs) : bool :=
+  Nat.eqb (length ops) (length (fst oc)) && Nat.eqb (length tl) (length (snd oc)).
+
+(* index of the first outcome that [ok] rejects *)
+Fixpoint first_out (ok : list obs * list obs -> bool) (j : Z) (l : list (list obs * list obs)) : option Z :=
+  match l with
+  | [] => None
+  | oc :: rest => if ok oc then first_out ok (j + 1) rest else Some j
+  end.
+
+(* rows: kind 2 = no sequential order on the reference LRU (the property's
+   monitor) explains outcome [step]; kind 1 = none on the model does.  Step
+   -1: the sequential prefix already deviates. *)
+Definition verdict_free (c : Z * fcase) : list (Z * Z * Z * Z) :=
+  let '(id, (cp, nocb, pre, ops, tl, outs)) := c in
+  (if forallb conc_op ops then [] else [(id, 2, -2, 0)]) ++
+  (match mod_seq_g nocb (empty cp) pre with
+   | None => [(id, 1, -1, 0)]
+   | Some c0 =>
+     match first_out (fun oc => outcome_wf ops tl oc &&
+                                explained (mod_seq_g nocb) c0 (combine ops (fst oc)) (combine tl (snd oc)))
+                     0 outs with
+     | Some j => [(id, 1, j, 0)]
+     | None => []
+     end
+   end) ++
+  (match ref_seq_g nocb (rempty cp) pre with
+   | None => [(id, 2, -1, 0)]
+   | Some r0 =>
+     match first_out (fun oc => outcome_wf ops tl oc &&
+                                explained (ref_seq_g nocb) r0 (combine ops (fst oc)) (combine tl (snd oc)))
+                     0 outs with
+     | Some j => [(id, 2, j, 0)]
+     | None => []
+     end
+   end).
+
+Definition run_free (cs : list (Z * fcase)) : list (Z * Z * Z * Z) := flat_map verdict_free cs.
+
+(* With the callbacks recorded, the reference part of the free-running check
+   IS the property monitor [holds] on the trace
+   prefix ; concurrent group ; tail   (the schedule field is not looked at). *)
+Definition seq_items (l : list (op * obs)) : list item := map (fun p => ISeq (fst p) (snd p)) l.
+
+Lemma ref_seq_g_false : forall l r, ref_seq_g false r l = ref_seq_check r l.
+Proof.
+  induction l as [|[o ob] l IH]; intros r; simpl; [reflexivity|].
+  destruct (ref_step r o) as [r1 rob]. unfold strip.
+  destruct (obs_match o ob rob); [apply IH|reflexivity].
+Qed.
+
+Lemma holds_from_seq_app : forall pre r rest,
+  holds_from r (seq_items pre ++ rest) =
+  match ref_seq_check r pre with Some r0 => holds_from r0 rest | None => false end.
+Proof.
+  induction pre as [|[o ob] pre IH]; intros r rest; simpl; [reflexivity|].
+  destruct (ref_step r o) as [r1 rob].
+  destruct (obs_match o ob rob); simpl; [apply IH|reflexivity].
+Qed.
+
+Lemma holds_from_seq : forall l r,
+  holds_from r (seq_items l) = match ref_seq_check r l with Some _ => true | None => false end.
+Proof.
+  intros l r. rewrite <- (app_nil_r (seq_items l)), holds_from_seq_app.
+  destruct (ref_seq_check r l); reflexivity.
+Qed.
+
+Lemma free_check_is_holds : forall cp pre ops sch rs tl,
+  holds cp (seq_items pre ++ IConc ops sch rs :: seq_items tl) =
+  match ref_seq_g false (rempty cp) pre with
+  | Some r0 => Nat.eqb (length ops) (length rs) && forallb conc_op ops &&
+               explained (ref_seq_g false) r0 (combine ops rs) tl
+  | None => false
+  end.
+Proof.
+  intros. unfold holds. rewrite holds_from_seq_app, ref_seq_g_false.
+  destruct (ref_seq_check (rempty cp) pre) as [r0|]; [|reflexivity].
+  cbn [holds_from]. f_equal. unfold explained.
+  induction (perms (combine ops rs)) as [|order l IH]; simpl; [reflexivity|].
+  rewrite IH, !ref_seq_g_false. f_equal.
+  destruct (ref_seq_check r0 order) as [r1|]; [|reflexivity].
+  rewrite ref_seq_g_false. apply holds_from_seq.
+Qed.
